@@ -9,14 +9,17 @@ from . import egram
 ID = 'C08'
 LEVEL = 'exploration'
 ASSUMPTIONS = [
-    'side conditions checked lexically: no NUL/DEL; \\def, \\textbf, \\section, \\label only followed (after optional '
-    'groups) by a brace group',
+    'side conditions checked lexically: no NUL/DEL; \\textbf, \\section, \\label only followed (after optional '
+    'groups) by a brace group; \\def only followed by a lexically simple brace group and then a second brace group',
     'the alignment is slightly more permissive than the statement: a whitespace run of the merged-spacer shape may '
     'vanish before any { or [, whether or not that group is an argument (attachment itself is C09)',
     'only strict-mode successes are judged (failures are C06)',
 ]
 FIXED = re.compile(r'\\(def|textbf|section|label)(?![A-Za-z*])')
 SPACER = re.compile(r'[ \t]*[\n\r]?[ \t]*')
+DEF_FIRST = re.compile(r'[ \t]*[\n\r]?[ \t]*\{(\\[A-Za-z]+)?[^{}\\%$\[\]\x00-\x1f]*\}')
+SPECIAL_NAMES = {'begin', 'end', 'item', 'def', 'textbf', 'section', 'label', 'verb', 'left', 'right', 'big', 'Big',
+                 'bigg', 'Bigg', 'newcommand', 'renewcommand', 'providecommand', 'newenvironment'}
 
 
 def brace_follows(src, i, optional):
@@ -37,7 +40,15 @@ def admissible(src):
         return False
     for m in FIXED.finditer(src):
         if m.group(1) == 'def':
-            return False                       # \def takes a bare control sequence: outside the side condition
+            # both mandatory arguments brace-delimited; the first one is required to be lexically simple (plain
+            # characters, optionally led by one ordinary control word) so that its end can be found without parsing
+            g = DEF_FIRST.match(src, m.end())
+            if g is None or (g.group(1) or '')[1:] in SPECIAL_NAMES:
+                return False
+            i = SPACER.match(src, g.end()).end()
+            if not (i < len(src) and src[i] == '{'):
+                return False
+            continue
         if not brace_follows(src, m.end(), m.group(1) == 'section'):
             return False
     return True
